@@ -622,3 +622,35 @@ pub fn spec_huff_encode(s: &[u8]) -> Vec<u8> {
     }
     out
 }
+/// byte-string equality written out (no memcmp)
+pub fn spec_bytes_eq(a: &[u8], b: &[u8]) -> bool {
+    if a.len() != b.len() {
+        return false;
+    }
+    let mut i = 0;
+    while i < a.len() {
+        if a[i] != b[i] {
+            return false;
+        }
+        i += 1;
+    }
+    true
+}
+/// RFC 9204 §3.1 / App. A lookups by linear search over SPEC_STATIC_TABLE; entries with a name (and value)
+/// longer than `max_len` are skipped without looking at them (callers pass the bound of their input, so the
+/// search stays cheap for a model checker; with max_len >= 53 it is the full table).
+pub fn spec_static_find(name: &[u8], value: &[u8], max_len: usize) -> Option<usize> {
+    let mut i = 0;
+    while i < 99 {
+        let (n, v) = SPEC_STATIC_TABLE[i];
+        if n.len() <= max_len && v.len() <= max_len && spec_bytes_eq(n, name) && spec_bytes_eq(v, value) {
+            return Some(i);
+        }
+        i += 1;
+    }
+    None
+}
+/// is `i` the index of an entry whose name is `name`?
+pub fn spec_static_name_is(i: usize, name: &[u8]) -> bool {
+    i < 99 && spec_bytes_eq(SPEC_STATIC_TABLE[i].0, name)
+}
